@@ -167,7 +167,7 @@ def r3(ctx: Ctx) -> None:
     for r in rets:
         guards = []
         for b in g.nodes:
-            if b.kind != "branch" or b.id not in dom[r.id] or not isinstance(b.ast, ast.Compare):
+            if b.kind != "branch" or not isinstance(b.ast, ast.Compare):
                 continue
             org = sl.origins(b.ast, b.id)
             touches = any(isinstance(x, ast.Attribute) and x.attr == "current_snapshot_id" for e in org["exprs"] for x in ast.walk(e))
